@@ -64,6 +64,9 @@ func arrLen(r *Rng) int {
 }
 
 func num(r *Rng) float64 {
+	if r.Chance(1, 60) {
+		return []float64{9007199254740993, 1e21, 1.5e300, 123456789012345680000, 0.1, 1e-7, -9007199254740991, 4294967296, 2147483648}[r.Intn(9)]
+	}
 	switch r.Intn(6) {
 	case 0:
 		return float64(r.Intn(4)) // many duplicates
@@ -767,6 +770,47 @@ func Systematic() []string {
 		add(u)
 	}
 	return out
+}
+
+// Deep builds an expression nested d levels in the given shape; valid shapes parse and
+// evaluate (to null on most documents), the "open-*" shapes fail at the end of input.
+func Deep(shape string, d int) string {
+	switch shape {
+	case "paren":
+		return strings.Repeat("(", d) + "a" + strings.Repeat(")", d)
+	case "index":
+		return "a" + strings.Repeat("[0]", d)
+	case "field":
+		return "a" + strings.Repeat(".b", d)
+	case "not":
+		return strings.Repeat("!", d) + "a"
+	case "call":
+		return strings.Repeat("not_null(", d) + "a" + strings.Repeat(")", d)
+	case "list":
+		return strings.Repeat("[", d) + "a" + strings.Repeat("]", d)
+	case "pipe":
+		return "a" + strings.Repeat(" | a", d)
+	case "or":
+		return "a" + strings.Repeat(" || a", d)
+	case "open-paren":
+		return strings.Repeat("(", d) + "a"
+	case "open-list":
+		return strings.Repeat("[", d)
+	case "open-call":
+		return strings.Repeat("f(", d) + "a"
+	}
+	return "a"
+}
+
+var DeepShapes = []string{"paren", "index", "field", "not", "call", "list", "pipe", "or"}
+var DeepOpenShapes = []string{"open-paren", "open-list", "open-call"}
+
+// DepthLimits are the round numbers an implementation is likely to pick for a nesting guard.
+var DepthLimits = []int{32, 64, 100, 128, 200, 250, 256, 500, 512, 1000, 1024, 2000, 2048, 4096}
+
+// DeepValid draws a deep but valid expression (depth 40..700).
+func DeepValid(r *Rng) string {
+	return Deep(DeepShapes[r.Intn(len(DeepShapes))], []int{40, 90, 130, 200, 260, 300, 400, 520, 700}[r.Intn(9)])
 }
 
 // DeepExprs are pathologically nested inputs (valid and invalid).
